@@ -2,8 +2,8 @@
  * drv_fpx.c - conformance driver for the extension-field towers (C10).
  *
  * Case line:  <sel> <op> <alias> <args...>
- *   sel = P<id> (fp_param_set(id)) | E<id> (ep_param_set(id) + ep2 twist, so that the
- *   twist-dependent sparse multiplications see the curve they were written for) |
+ *   sel = P<id> (fp_param_set(id)) | E<curve name><d|m> (ep_param_set + ep2_curve_set_twist(D|M type):
+ *   the sparse multiplications of the pairing towers choose their pattern by the twist type) |
  *   D<hex> (fp_prime_set_dense, tiny worlds);
  *   op  = full function name (fp12_mul_lazyr, ...) or "tower <levels...>";
  *   element token = [c:|n:|k:|K:]<coef>,<coef>,...  (one coefficient token per base-field
@@ -12,6 +12,8 @@
  *     n: x -> conj(x) / x with the library's inv and mul (a norm-1 element of a quadratic top level)
  *     k: conv_cyc, then the compressed squaring into a zeroed element (input of back_cyc)
  *     K: conv_cyc only, used as compressed form as it stands
+ *     s: the library's fpN_sqr is applied first (a square)
+ *     g: the library's final exponentiation pp_exp_k12 is applied first (order divides r)
  *   Inputs are always logged RAW after this preparation: the specification judges what
  *   the call under test received, whatever produced it.
  *
@@ -252,6 +254,16 @@ static void set_el(fp_t *a, int lvl, const char *tok0) {
 		for (i = n / 2; i < n; i++) fp_neg(a[i], a[i]);
 		VH_TRY(err, ((f_bin)om->fn)(T2, a, T1));
 		cpy(a, T2, n);
+	} else if (mode == 'g') {
+		/* an element of order dividing r: the final exponentiation of the pairing (dodecic towers only) */
+		if (lvl != 12 || !ep_curve_is_pairf()) { fprintf(stderr, "g: needs a pairing-friendly curve with k = 12\n"); exit(2); }
+		VH_TRY(err, pp_exp_k12((fp6_t *)T1, (fp6_t *)a));
+		cpy(a, T1, n);
+	} else if (mode == 's') {
+		/* a square, by the library's own squaring */
+		const op_t *o = find_op(lvl, "sqr");
+		VH_TRY(err, ((f_un)o->fn)(T1, a));
+		cpy(a, T1, n);
 	} else if (mode) { fprintf(stderr, "bad element prefix in %s\n", tok0); exit(2); }
 	if (err) { fprintf(stderr, "case %ld: preparing %s failed\n", (long)vh_case, tok0); vh_code(); }
 }
@@ -309,7 +321,8 @@ static void do_un(const char *op, const op_t *o, int al, int unr) {
 }
 
 static void do_frb(const char *op, const op_t *o, int al) {
-	int err, unch = 1, n = o->lvl, k = atoi(vh_tok[3]), j = vh_ntok > 4 ? atoi(vh_tok[4]) : 0;
+	int err, unch = 1, n = o->lvl, k = atoi(vh_tok[3]), x = vh_ntok > 4 ? atoi(vh_tok[4]) : 0;
+	int j = o->kind == K_MFRB ? x : 0, full = o->kind == K_FRB ? x : 0;
 	fp_t *pa = A, *pc = C;
 	set_el(A, n, vh_tok[2]);
 	if (al == 1) pc = pa;
@@ -317,7 +330,7 @@ static void do_frb(const char *op, const op_t *o, int al) {
 	stale(C, n);
 	hdr(op, o->f, n, al);
 	vh_el("a", pa, n); vh_int("k", k); vh_int("j", j);
-	vh_int("full", vh_ntok > 5 ? atoi(vh_tok[5]) : (o->kind == K_FRB && vh_ntok > 4 ? atoi(vh_tok[4]) : 0));
+	vh_int("full", full);
 	if (o->kind == K_FRB) VH_TRY(err, ((f_frb)o->fn)(pc, pa, k));
 	else VH_TRY(err, ((f_mfrb)o->fn)(pc, pa, k, j));
 	vh_el("c", pc, n);
@@ -393,6 +406,16 @@ static void do_expsim(const char *op, const op_t *o, int al) {
 	stale(C, n);
 	hdr(op, o->f, n, al);
 	vh_el("a", pa, n); vh_bn("e", E); vh_el("d", D, n); vh_bn("e2", E2);
+	/* the dodecic variant switches to a Frobenius decomposition modulo the group order when a
+	 * pairing-friendly curve with embedding degree 12 is configured: log what it looks at */
+	{
+		bn_t r; int pf = ep_curve_is_pairf();
+		bn_null(r); bn_new(r);
+		if (pf) ep_curve_get_ord(r); else bn_zero(r);
+		vh_int("pf", pf); vh_int("ek", pf ? ep_curve_embed() : 0);
+		vh_digs("r", r->dp, r->used);
+		bn_free(r);
+	}
 	VH_TRY(err, ((f_expsim)o->fn)(pc, pa, E, D, E2));
 	vh_el("c", pc, n);
 	if (pc != pa) unch &= same(A, A0, n);
@@ -524,9 +547,14 @@ static void ensure_field(const char *sel) {
 		g_pid = atoi(sel + 1);
 		VH_TRY(err, fp_param_set(g_pid));
 	} else if (sel[0] == 'E') {
-		g_pid = atoi(sel + 1);
-		VH_TRY(err, ep_param_set(g_pid));
-		if (!err) VH_TRY(err, ep2_curve_set_twist(ep_param_get() == B12_P381 || ep_param_get() == B12_P383 ? RLC_EP_MTYPE : RLC_EP_DTYPE));
+		/* E<name>d | E<name>m : the pairing-friendly curve and the twist type the sparse forms look at */
+		int id = -1, tw = sel[strlen(sel) - 1] == 'm' ? RLC_EP_MTYPE : RLC_EP_DTYPE;
+		if (strncmp(sel + 1, "BN_P256", 7) == 0) id = BN_P256;
+		else if (strncmp(sel + 1, "SM9_P256", 8) == 0) id = SM9_P256;
+		else if (strncmp(sel + 1, "B12_P381", 8) == 0) id = B12_P381;
+		else { fprintf(stderr, "unknown curve %s\n", sel); exit(2); }
+		VH_TRY(err, ep_param_set(id));
+		if (!err) VH_TRY(err, ep2_curve_set_twist(tw));
 		if (!err) g_pid = fp_param_get();
 	} else if (sel[0] == 'D') {
 		bn_t p;
@@ -574,6 +602,12 @@ static int run_case(void) {
 
 /* parameter ids this build accepts: "<id> <prime hex> <qnr> <cnr> <xi0 xi1 as values> <x3...>" is left to the
  * tower event; here only id and prime */
+static void bn_print_hex(const bn_t t) {
+	int i;
+	if (bn_is_zero(t)) { printf("0"); return; }
+	for (i = (int)t->used - 1; i >= 0; i--) printf(i == (int)t->used - 1 ? "%llx" : "%0*llx",
+		i == (int)t->used - 1 ? (unsigned long long)t->dp[i] : (int)(2 * sizeof(dig_t)), (unsigned long long)t->dp[i]);
+}
 static int list_params(void) {
 	int id, i, err;
 	ctx_t *ctx = core_get();
@@ -584,8 +618,19 @@ static int list_params(void) {
 		if (err == 0 && (ctx->prime.dp[0] & 1) && ctx->prime.used == RLC_FP_DIGS) {
 			printf("%d ", id);
 			for (i = FD - 1; i >= 0; i--) printf("%0*llx", (int)(2 * sizeof(dig_t)), (unsigned long long)ctx->prime.dp[i]);
-			printf(" %d %d %d %d\n", fp_prime_get_qnr(), fp_prime_get_cnr(),
-				fp_prime_get_qnr() ? fp2_field_get_qnr() : 0, fp_prime_get_cnr() ? fp3_field_get_cnr() : 0);
+			printf(" %d %d", fp_prime_get_qnr(), fp_prime_get_cnr());
+			read_tower();
+			{
+				/* the next-level non-residues as VALUES (input selection only: which towers are fields) */
+				bn_t t; int k;
+				bn_null(t); bn_new(t);
+				for (k = 0; k < 5; k++) {
+					fp_prime_back(t, k < 2 ? g_xi[k] : g_x3[k - 2]);
+					printf(" "); bn_print_hex(t);
+				}
+				bn_free(t);
+			}
+			printf("\n");
 		}
 	}
 	return 0;
@@ -597,6 +642,13 @@ int main(int argc, char **argv) {
 	if (argc > 1 && strcmp(argv[1], "--list") == 0) {
 		if (core_init() != RLC_OK) return 2;
 		return list_params();
+	}
+	if (argc > 1 && strcmp(argv[1], "--ops") == 0) {
+		const op_t *o;
+		static const char *kn[] = { "BIN", "UN", "UNR2", "UNR1", "FRB", "MFRB", "DIG", "SETDIG", "CMPDIG", "EXP", "EXPSIM",
+			"SPS", "PRED", "ROOT", "CMP", "SIM", "ZERO" };
+		for (o = g_ops; o->f; o++) printf("%d %s %s\n", o->lvl, o->f, kn[o->kind]);
+		return 0;
 	}
 	in = vh_open(argc, argv, &start);
 	if (core_init() != RLC_OK) return 2;
